@@ -13,13 +13,32 @@ Layers (DESIGN §4 C01/C02):
   1-UIP resolution (`resolve_sound`, `learn_chain_sound`), the Luby schedule as regenerated from
   the source (`luby_pos`, `luby_pow2`, `luby_fuel`, `luby_at_pow`, `luby_rec`).
 
-Not proved (stretch items [S] of the design, about a CDCL mirror model `Sat.Cdcl`):
--- FULL STATEMENT (not proved): cdcl_returns_models — for every input and parameter setting every
---   assignment returned by the CDCL mirror satisfies formula and assumptions.
--- FULL STATEMENT (not proved): cdcl_infeasible_sound — the mirror answers INFEASIBLE only for
---   unsatisfiable formula + assumptions.
--- FULL STATEMENT (not proved): cdcl_fuel_suffices — the mirror never exhausts the fuel derived
---   from (solution_limit, max_restarts, max_conflicts, number of variables).
+Not proved (stretch items [S] of the design).  They are about the executable CDCL mirror
+`Sat.Cdcl.solve` (Solvor/Sat/Cdcl.lean), which is tied to `solve_sat` by R_trace (same status, same
+assignments in the same order, same decision/propagation counters on every explored input) but about
+which nothing is proved for all inputs:
+
+-- FULL STATEMENT (not proved): cdcl_returns_models
+--   theorem cdcl_returns_models (f : Cnf) (as : List Int) (P : Cdcl.Params)
+--       (hf : WF f) (ha : ∀ a ∈ as, a ≠ 0) (hne : ∃ c ∈ f, c ≠ []) :
+--       let o := Cdcl.solve f as P
+--       (∀ m, o.solution = some m → evalCnf f as m = true) ∧
+--       (∀ ms, o.solutions = some ms →
+--          (∀ m ∈ ms, evalCnf f as m = true) ∧ pairwiseDistinct ms = true)
+--   (`hne` excludes the recorded finding: a formula of empty clauses only is answered `{}`.)
+--   Needs the two-watched-literal invariant "after `propagate` returns -1 no clause is false under
+--   the trail" and its preservation by `unassignTo`, `reduceDb` and the blocking-clause restart.
+-- FULL STATEMENT (not proved): cdcl_infeasible_sound
+--   theorem cdcl_infeasible_sound (f as P) (hf : WF f) (ha : ∀ a ∈ as, a ≠ 0) :
+--       (Cdcl.solve f as P).status = .INFEASIBLE → ¬ ∃ σ, Models σ f as
+--   Needs: every clause in `learned` is entailed by `f` plus the earlier blocking clauses (the
+--   per-step fact is `learn_chain_sound`; the per-input check is `entailsB_iff`), and every level-0
+--   literal is entailed by `f`, the assumptions and – in single-solution mode – the pure-literal choice.
+-- FULL STATEMENT (not proved): cdcl_fuel_suffices
+--   theorem cdcl_fuel_suffices (f as P) : (Cdcl.solve f as P).status ≠ .UNBOUNDED
+--   (`UNBOUNDED` is how the mirror reports "fuel `(maxConflicts + solutionLimit + 2) * (nVars + 2) * 2 + 64`
+--   exhausted"; on every explored input the driver reports the loop iterations actually used against
+--   that bound – at most 14 % so far – as a measured fact.)
 -/
 namespace Solvor.Sat
 
